@@ -2,6 +2,9 @@
 
 mod common;
 mod c01;
+mod c02;
+mod c11;
+mod c08;
 
 use vlib::util::*;
 
@@ -38,6 +41,9 @@ fn main() {
         let v: serde_json::Value = serde_json::from_str(&txt).unwrap_or_else(|e| machinery_fail(&format!("parse {path}: {e}")));
         let ok = match id.as_str() {
             "C01" => c01::replay(&v["case"]),
+            "C02" => c02::replay(&v["case"]),
+            "C11" => c11::replay(&v["case"]),
+            "C08" => c08::replay(&v["case"]),
             _ => machinery_fail("no replay for this id"),
         };
         if ok {
@@ -51,6 +57,9 @@ fn main() {
     let run = Run::start(&id, &tier);
     match id.as_str() {
         "C01" => c01::run(run),
+        "C02" => c02::run(run),
+        "C11" => c11::run(run),
+        "C08" => c08::run(run),
         _ => machinery_fail("unknown property id"),
     }
 }
